@@ -434,7 +434,8 @@ def gen_mask(rng, n, kind=None, lkeys=None):
             if r < 0.5:
                 return -int(rng.integers(1, n + 2))
             return int(rng.integers(0, n + 3))
-        return {"kind": "slice", "start": bound(), "stop": bound(), "step": None}
+        step = pick(rng, [None] * 12 + [2, 3, -1, -2])
+        return {"kind": "slice", "start": bound(), "stop": bound(), "step": step}
     if kind == "pos":
         k = int(rng.integers(0, n + 1))
         mode = pick(rng, ["sorted_unique", "unsorted", "repeated", "negative"])
